@@ -6,6 +6,7 @@
 
 pub mod bpt;
 pub mod compaction;
+pub mod damage;
 pub mod engine;
 pub mod oracle;
 pub mod table;
